@@ -5,6 +5,7 @@
 package props
 
 import (
+	"context"
 	"encoding/json"
 	"fmt"
 	"os"
@@ -537,3 +538,5 @@ func minimise(t *testing.T, a WorkerArgs) {
 		os.Exit(2)
 	}
 }
+
+func backgroundCtx() context.Context { return context.Background() }
